@@ -123,6 +123,10 @@ fn decode_loop(
     let mut total_bytes_read = 0;
 
     loop {
+        #[cfg(feature = "verif-hooks")]
+        if verif_hooks::tick(total_bytes_read, output.len(), output.capacity()) {
+            break Err(LoadError::Decode(Cow::Borrowed("verif: iteration limit")));
+        }
         match decoder.decode_to_string_without_replacement(&input[total_bytes_read..], output, true)
         {
             // If the input is empty, we processed the whole input.
@@ -197,6 +201,41 @@ fn detect_utf16_endianness(b: &[u8]) -> &'static Encoding {
         }
     }
     encoding_rs::UTF_8
+}
+
+/// Verification hooks (feature `verif-hooks`): a per-thread trace of the iterations of
+/// `decode_loop` with an iteration cap, and a wrapper over the encoding sniffer.
+#[cfg(feature = "verif-hooks")]
+#[allow(missing_docs)]
+pub mod verif_hooks {
+    use std::cell::RefCell;
+
+    /// Maximum number of iterations of `decode_loop` before it is aborted with an error.
+    pub const ITERATION_LIMIT: usize = 10_000;
+
+    thread_local! {
+        static TRACE: RefCell<Vec<(usize, usize, usize)>> = const { RefCell::new(Vec::new()) };
+    }
+
+    /// Record one loop iteration; returns `true` when the iteration limit is reached.
+    pub(super) fn tick(read: usize, len: usize, capacity: usize) -> bool {
+        TRACE.with(|t| {
+            let mut t = t.borrow_mut();
+            t.push((read, len, capacity));
+            t.len() > ITERATION_LIMIT
+        })
+    }
+
+    /// Take (and clear) the trace of `(total_bytes_read, output.len(), output.capacity())`.
+    #[must_use]
+    pub fn take_trace() -> Vec<(usize, usize, usize)> {
+        TRACE.with(|t| std::mem::take(&mut *t.borrow_mut()))
+    }
+
+    #[must_use]
+    pub fn detect_utf16_endianness(b: &[u8]) -> &'static str {
+        super::detect_utf16_endianness(b).name()
+    }
 }
 
 #[cfg(test)]
